@@ -406,7 +406,7 @@ def run(res, tier):
                 "matching and non-matching hosts")
     std.run_standard(res, PID, tier, area="acldom", build_impl=impl, gen_cases=gen_cases, oracle=oracle,
                      corr_name="AcldomModel/SplayModel vs src/acl/DomainData.cc, src/acl/SplayInserter.h, src/anyp/Uri.cc, include/splay.h",
-                     gens=["acldom"], n_quick=9000, n_thorough=150000, seed_salt=41, mutate=mutate,
+                     gens=["acldom"], n_quick=6000, n_thorough=150000, seed_salt=41, mutate=mutate,
                      kind_fn=kind_fn, nontrivial_fn=nontrivial, norm_impl=norm_impl, norm_model=norm_model,
                      impl_env={"ASAN_OPTIONS": "detect_leaks=0:abort_on_error=0:symbolize=0",
                                "UBSAN_OPTIONS": "print_stacktrace=0:halt_on_error=1:symbolize=0"})
